@@ -1,0 +1,85 @@
+//! Verification hooks (cargo feature `verif-hooks`, off by default).
+//!
+//! Nothing in this module, and none of the `verif_*` methods on the cache
+//! types, is part of the supported API. They only *read* internal state (or,
+//! for `verif_rehash`, ask the hash index to re-hash its entries) so that an
+//! external simulator can audit the intrusive lists after every operation.
+use alloc::vec::Vec;
+
+/// Raw structural report of one `RawLRU`: addresses only, produced without
+/// calling any user code (`Hash`/`Eq`) so that it is usable after a fault.
+#[derive(Debug, Clone, Default)]
+pub struct ListAudit {
+    /// capacity field of the list
+    pub cap: usize,
+    /// number of entries in the hash index
+    pub map_len: usize,
+    /// size in bytes of one list node
+    pub node_size: usize,
+    /// offset of the key inside a node
+    pub key_offset: usize,
+    /// address of the head sentinel
+    pub head: usize,
+    /// address of the tail sentinel
+    pub tail: usize,
+    /// node addresses met walking `head.next ...` (sentinels excluded)
+    pub forward: Vec<usize>,
+    /// the forward walk reached the tail sentinel within the step bound
+    pub forward_closed: bool,
+    /// node addresses met walking `tail.prev ...` (sentinels excluded)
+    pub backward: Vec<usize>,
+    /// the backward walk reached the head sentinel within the step bound
+    pub backward_closed: bool,
+    /// a walk stopped because `is_live` rejected this address
+    pub dead_node: Option<usize>,
+    /// `(key pointer, node pointer)` of every index entry, in table order
+    pub index: Vec<(usize, usize)>,
+}
+
+/// Snapshot of the private state of a `TinyLFU`.
+#[derive(Debug, Clone, PartialEq, Eq, Default)]
+pub struct TinyLFUState {
+    /// accesses recorded since the last reset
+    pub w: usize,
+    /// sample size
+    pub samples: usize,
+    /// doorkeeper bit set
+    pub doorkeeper: Vec<u64>,
+    /// the four count-min rows (two 4-bit counters per byte)
+    pub rows: Vec<Vec<u8>>,
+    /// per-row seeds (empty for the no_std sketch)
+    pub seeds: Vec<u64>,
+    /// counter index mask
+    pub mask: u64,
+}
+
+/// Snapshot of the private state of a `SampledLFU`.
+#[derive(Debug, Clone, PartialEq, Eq, Default)]
+pub struct SampledLFUState {
+    /// sample size
+    pub samples: usize,
+    /// running total of the recorded costs
+    pub used: i64,
+    /// max cost
+    pub max_cost: i64,
+    /// tracked `(key hash, cost)` pairs in table order
+    pub key_costs: Vec<(u64, i64)>,
+}
+
+#[cfg(feature = "std")]
+std::thread_local! {
+    static SKETCH_CLOCK: core::cell::Cell<Option<u64>> = const { core::cell::Cell::new(None) };
+}
+
+/// Overrides (for the current thread) the wall-clock value the std
+/// count-min sketch seeds itself from. `None` restores `SystemTime::now()`.
+#[cfg(feature = "std")]
+pub fn set_sketch_clock(v: Option<u64>) {
+    SKETCH_CLOCK.with(|c| c.set(v))
+}
+
+/// The current override, if any.
+#[cfg(feature = "std")]
+pub fn sketch_clock() -> Option<u64> {
+    SKETCH_CLOCK.with(|c| c.get())
+}
